@@ -8,6 +8,7 @@ import (
 	"testing"
 	"unicode/utf8"
 
+	flags "github.com/jessevdk/go-flags"
 	"pgregory.net/rapid"
 )
 
@@ -293,7 +294,70 @@ type c17Row struct {
 	what   string
 }
 
+// c17Oracle: the layout checks on WriteHelp's output, then the same help text
+// as delivered by the built-in help flag (the message of the ErrHelp error).
 func c17Oracle(c *C17Case) string {
+	if m := c17Layout(c); m != "" {
+		return m
+	}
+	return c17ViaFlag(c)
+}
+
+// c17ViaFlag: requesting the help with --help on the same declaration, width
+// and command chain yields, as the ErrHelp message, exactly what WriteHelp
+// writes for the parser in that state.
+func c17ViaFlag(c *C17Case) string {
+	st := S("C17")
+	defer guardCall("help through --help")()
+	w := c.Width
+	if w == 0 {
+		w = 80
+	}
+	if !SetTermWidth(w) {
+		return ""
+	}
+	d := *c.D
+	d.Opts |= uint(flags.HelpFlag)
+	b := Build(&d)
+	if b.Err != nil {
+		return ""
+	}
+	var words []string
+	cur := &d.Root
+	for _, id := range c.Active {
+		var next *Cmd
+		for i := range cur.Cmds {
+			if cur.Cmds[i].ID == id {
+				next = &cur.Cmds[i]
+			}
+		}
+		if next == nil {
+			return ""
+		}
+		words = append(words, next.Name)
+		cur = next
+	}
+	var err error
+	if pm := Safely(func() { _, err = b.P.ParseArgs(append(words, "--help")) }); pm != "" {
+		return fmt.Sprintf("requesting help with %q panicked at width %d: %s", append(words, "--help"), w, pm)
+	}
+	fe := FlagsErr(err)
+	if fe == nil || fe.Type != flags.ErrHelp {
+		st.Label("help flag path: no ErrHelp (not compared)")
+		return ""
+	}
+	var buf bytes.Buffer
+	if pm := Safely(func() { b.P.WriteHelp(&buf) }); pm != "" {
+		return "WriteHelp panicked after a help request: " + pm
+	}
+	st.Label("help flag path compared")
+	if fe.Message != buf.String() {
+		return fmt.Sprintf("the help text delivered by --help (ErrHelp message) differs from what WriteHelp writes for the same parser at width %d:\n--- ErrHelp ---\n%s\n--- WriteHelp ---\n%s", w, trunc(diffContext(fe.Message, buf.String(), true)), trunc(diffContext(fe.Message, buf.String(), false)))
+	}
+	return ""
+}
+
+func c17Layout(c *C17Case) string {
 	st := S("C17")
 	out, width, ok, pm, setup := c17Render(c)
 	if !ok {
